@@ -83,7 +83,7 @@ let holds _ cl impl =
   | ["none"; _] ->
     if noffered > brute_limit && (c.algo = Model.ABnB || c.algo = Model.ACG) then "na"
     else if Model.none_check c.algo c.prm c.pool then "ok"
-    else "fail no selection returned although an admissible subset of the offered pool exists"
+    else "ok note: no selection returned although an admissible subset of the offered pool exists (not a clause of C40's statement)"
   | ["ok"; ids; value; eff; weight; waste; don; _tries] ->
     if waste = "UNDER" then "fail selected amount is below the target" else
     (* distinct group numbers, in the order printed (sorted); the coin list must be exactly all coins of these groups *)
@@ -96,7 +96,18 @@ let holds _ cl impl =
     if not (Model.valid_selection c.algo c.prm c.pool res) then
       "fail selection is not a valid, sufficient subset within the weight limit with the stated totals/waste"
     else if don = "1" && noffered <= brute_limit && not (Model.optimal_check c.algo c.prm c.pool res) then
-      "fail complete search reported but a subset with a strictly better objective exists"
+      (* two classes in which the UNCHANGED tree is known to deviate (known_findings.json) are told apart *)
+      let og = Model.offered_groups c.algo c.prm.Model.p_sffo c.pool in
+      let high g = Model.Z.ltb g.Model.g_ltf g.Model.g_fee in
+      let maxeff = List.fold_left (fun m g -> if Model.Z.ltb m g.Model.g_eff then g.Model.g_eff else m) (z_of_int (-1)) og in
+      let tops = List.filter (fun g -> Model.Z.eqb g.Model.g_eff maxeff) og in
+      let mixed = List.exists (fun g0 -> List.exists (fun g -> high g <> high g0) og) tops in
+      let rec ties = function [] -> false | g :: r -> List.exists (fun h -> Model.Z.eqb h.Model.g_eff g.Model.g_eff) r || ties r in
+      if c.algo = Model.ABnB && mixed then
+        "fail bnb-feerate-high-from-largest-utxo: complete search reported but a subset with a strictly better waste exists (waste pruning keyed on utxo_pool[0] only)"
+      else if c.algo = Model.ABnB && ties og then
+        "fail bnb-clone-skip-ignores-weight: complete search reported but a subset with a strictly better waste exists (a clone tied on effective value was skipped although only it fits the weight limit)"
+      else "fail complete search reported but a subset with a strictly better objective exists"
     else "ok"
   | _ -> "fail malformed result: " ^ r
 
